@@ -118,21 +118,56 @@ func c14BuildRules(t *testing.T) []*c14Rule {
 		node   bool   // node metadata parsed
 		ratio  string // value of the node's cpu-normalization-ratio annotation ("" = annotation missing)
 		enable bool
+		// an earlier configuration the same plugin object went through before (rule updates within one agent lifetime):
+		// prevSLO / prevRatio are parsed first ("-" = no earlier event of that kind)
+		prevSLO, prevRatio string
 	}
 	cfgs := []cfg{
-		{"fresh", "", false, "", true},
-		{"quota-on,ratio-missing", "cpuset", true, "", true},
-		{"quota-on,ratio-0.50", "cpuset", true, "0.50", true},
-		{"quota-on,ratio-1.00", "cpuset", true, "1.00", true},
-		{"quota-on,ratio-1.20", "cpuset", true, "1.20", true},
-		{"quota-on,ratio-1.50", "cpuset", true, "1.50", true},
-		{"quota-on,ratio-2.00", "cpuset", true, "2.00", true},
-		{"quota-off,ratio-missing", "cfsQuota", true, "", false},
-		{"quota-off,ratio-2.00", "cfsQuota", true, "2.00", false},
+		{"fresh", "", false, "", true, "-", "-"},
+		{"quota-on,ratio-missing", "cpuset", true, "", true, "-", "-"},
+		{"quota-on,ratio-0.50", "cpuset", true, "0.50", true, "-", "-"},
+		{"quota-on,ratio-1.00", "cpuset", true, "1.00", true, "-", "-"},
+		{"quota-on,ratio-1.20", "cpuset", true, "1.20", true, "-", "-"},
+		{"quota-on,ratio-1.50", "cpuset", true, "1.50", true, "-", "-"},
+		{"quota-on,ratio-2.00", "cpuset", true, "2.00", true, "-", "-"},
+		{"quota-off,ratio-missing", "cfsQuota", true, "", false, "-", "-"},
+		{"quota-off,ratio-2.00", "cfsQuota", true, "2.00", false, "-", "-"},
+		// the configuration changed while the agent ran: what counts is the configuration now
+		{"quota-on,ratio-missing,was-1.50", "cpuset", true, "", true, "-", "1.50"},
+		{"quota-on,ratio-1.00,was-2.00", "cpuset", true, "1.00", true, "-", "2.00"},
+		{"quota-on,ratio-1.20,was-2.00", "cpuset", true, "1.20", true, "-", "2.00"},
+		{"quota-on,ratio-2.00,was-missing,was-quota-off", "cpuset", true, "2.00", true, "cfsQuota", ""},
+		{"quota-off,ratio-1.50,was-quota-on", "cfsQuota", true, "1.50", false, "cpuset", "-"},
+	}
+	parseSLO := func(p *plugin, name, slo string) {
+		pol := slov1alpha1.CPUSetPolicy
+		if slo == "cfsQuota" {
+			pol = slov1alpha1.CPUCfsQuotaPolicy
+		}
+		on := true
+		spec := &slov1alpha1.NodeSLOSpec{ResourceUsedThresholdWithBE: &slov1alpha1.ResourceThresholdStrategy{Enable: &on, CPUSuppressPolicy: pol}}
+		if _, err := p.parseRuleForNodeSLO(spec); err != nil {
+			t.Fatalf("parseRuleForNodeSLO(%s): %v", name, err)
+		}
+	}
+	parseNode := func(p *plugin, name, ratio string) {
+		node := &corev1.Node{ObjectMeta: metav1.ObjectMeta{Name: "n"}}
+		if ratio != "" {
+			node.Annotations = map[string]string{apiext.AnnotationCPUNormalizationRatio: ratio}
+		}
+		if _, err := p.parseRuleForNodeMeta(node); err != nil {
+			t.Fatalf("parseRuleForNodeMeta(%s): %v", name, err)
+		}
 	}
 	var out []*c14Rule
 	for _, c := range cfgs {
 		p := newPlugin()
+		if c.prevSLO != "-" {
+			parseSLO(p, c.name, c.prevSLO)
+		}
+		if c.prevRatio != "-" {
+			parseNode(p, c.name, c.prevRatio)
+		}
 		if c.slo != "" {
 			pol := slov1alpha1.CPUSetPolicy
 			if c.slo == "cfsQuota" {
